@@ -64,6 +64,7 @@ func c09Corpus(thorough bool) []c09Input {
 		{"cwd-relative-and-file-relative-outputs", map[string]string{
 			"internal/conv/conv.go": pk("conv", c09Types+"\n// goverter:converter\n// goverter:output:file @cwd/gen/conv_gen.go\n// goverter:output:package vx/gen\ntype A1 interface {\n\tConvert(source In) Out\n}\n\n// goverter:converter\n// goverter:output:file ../x/x_gen.go\n// goverter:output:package vx/internal/x\ntype A2 interface {\n\tConvert(source []In) []Out\n}\n\n// goverter:variables\n// goverter:output:file @cwd/gen/vars_gen.go\n// goverter:output:package vx/gen\nvar (\n\tConvV func(source In) Out\n)\n"),
 		}, []string{"./internal/conv"}},
+		{"helper-gains-several-contexts", map[string]string{"a/a.go": pk("a", "type Nested struct{ A int }\ntype NestedOut struct{ A string }\ntype In struct{ N Nested; L []Nested; M map[string]Nested }\ntype Out struct{ N NestedOut; L []NestedOut; M map[string]NestedOut }\n\n// goverter:converter\n// goverter:extend Ext\ntype C interface {\n\t// goverter:context c1\n\t// goverter:context c2\n\t// goverter:context c3\n\t// goverter:context c4\n\t// goverter:context c5\n\tConvert(source In, c1 bool, c2 float64, c3 uint8, c4 string, c5 int64) Out\n}\n\n// goverter:context a\n// goverter:context b\n// goverter:context c\n// goverter:context d\n// goverter:context e\nfunc Ext(s int, a int64, b string, c uint8, d float64, e bool) string { return \"\" }\n")}, []string{"./a"}},
 		{"ambiguous-fields-and-missing", map[string]string{"a/a.go": pk("a", "type In struct{ NAME string; NaMe string; nAME string; X int }\ntype Out struct{ Name string; Y int; Z int }\n\n// goverter:converter\n// goverter:matchIgnoreCase\ntype C interface {\n\tConvert(source In) Out\n}\n")}, []string{"./a"}},
 	}
 	if thorough {
